@@ -62,8 +62,21 @@ pub mod heapless {
         else if d.last() { pick(s.drop_last(), d.drop_last()).push(s.last()) }
         else { pick(s.drop_last(), d.drop_last()) }
     }
+    /// an iterator over the table, for code that may start to search it: its adapters say nothing
+    /// about their results (an unannotated predicate is unknown to the verifier)
+    #[verifier::external_body]
+    #[verifier::reject_recursive_types(T)]
+    pub struct VIter<'v, T> { p: core::marker::PhantomData<&'v T> }
+    impl<'v, T> VIter<'v, T> {
+        #[verifier::external_body]
+        pub fn any<F: Fn(&T) -> bool>(self, f: F) -> (r: bool)
+            requires forall|x: &T| f.requires((x,)),
+        { unimplemented!() }
+    }
     impl<T, const N: usize> Vec<T, N> {
         pub uninterp spec fn view(&self) -> Seq<T>;
+        #[verifier::external_body]
+        pub fn iter<'v>(&'v self) -> VIter<'v, T> { unimplemented!() }
         /// push: Err(x) and no change when full
         #[verifier::external_body]
         pub fn push(&mut self, x: T) -> (r: Result<(), T>)
@@ -165,6 +178,11 @@ impl OneShotState {
 // the same thing by definition of split_first (specified in vstd)
 // (vstd carries the specification of <[T]>::split_first)
 
+//@ item keyberon/src/layout.rs fn keycode in `State<'a, T>`
+//@@ wrap impl<'a, T: 'a> State<'a, T>
+//@@ ret r
+//@@ spec
+    ensures r == (match *self { State::NormalKey { keycode, .. } => Some(keycode), State::FakeKey { keycode } => Some(keycode), _ => None }),
 //@ item keyberon/src/layout.rs fn seq_release in `State<'a, T>`
 //@@ wrap impl<'a, T: 'a> State<'a, T>
 //@@ pre
